@@ -138,9 +138,9 @@ mutant('C18', 'rec-no-seek', 'cache.py',
 
 # ------------------------------------------------------------------ C14
 mutant('C14', 'no-finite-check', 'matrix/_base.py',
-       "        if not numpy.isfinite(lhs).all():\n            raise MatrixError('solver returned non-finite left hand side')\n",
-       "",
-       'non-finite back-end results are passed on', expect='R-non-finite')
+       "        if not numpy.isfinite(lhs).all():\n            raise MatrixError('solver returned non-finite left hand side')\n        resnorm = numpy.linalg.norm(rhs - self @ lhs, axis=0).max()\n        treelog.debug('solver returned with residual {:.0e}'.format(resnorm))\n        if not numpy.isfinite(resnorm):\n            raise MatrixError('solver returned with non-finite residual')\n",
+       "        resnorm = numpy.linalg.norm(rhs - self @ lhs, axis=0).max()\n        treelog.debug('solver returned with residual {:.0e}'.format(resnorm))\n",
+       'non-finite back-end results are passed on (both the check of the vector and, since fix 4ef6b58, the check of the residual norm removed: each alone is covered by the other)', expect='R-non-finite')
 mutant('C14', 'tolerance-never-raises', 'matrix/_base.py',
        "        if resnorm > atol > 0:\n            raise ToleranceNotReached(lhs)\n",
        "",
